@@ -20,9 +20,12 @@ CONSTRUCTS = ["source_filename", "target triple", "identified struct types (recu
               "named metadata (merged)", "metadata tuples (distinct, refs, cycles, strings, null, ints, inline tuples)"]
 
 
-def gen(tier, rng, harness=None):
-    lines = []
+def gen(tier, rng, harness=None, driver=None):
+    from . import pC06
     n = 150 if tier == "quick" else 8000
+    # every instruction kind with a typed result, on generated operand types (scalars, fixed and scalable vectors, aggregates):
+    # the result is USED at LLVM's type and the printed module must spell the use at that type
+    lines = pC06.use_stream(rng, driver, 3 * n)
     for _ in range(n):
         ts, gs = coregen.gen_core(rng)
         a = coregen.args(ts, gs)
